@@ -22,6 +22,12 @@ func subjects(name, bounds string) []gen.Subject {
 		return append(gen.Snippets(), append(gen.CallGraphShapes(2, 3), gen.CallGraphShapes(3, 1)...)...)
 	case "snippets":
 		return gen.Snippets()
+	case "gopanic":
+		var out []gen.Subject
+		for _, c := range gen.GoPanicFamily() {
+			out = append(out, c.Subject)
+		}
+		return out
 	case "dispatch":
 		var d int
 		fmt.Sscanf(bounds, "d%d", &d)
